@@ -36,6 +36,15 @@ Record fndef := { fn_name : str; fn_attrs : list (list str); fn_params : list (s
 Inductive item := IDef (d : tdef) | IFn (f : fndef) | IOther | IMod (ds : list tdef).
 Definition project := list (str * list item).       (* files in AstCache iteration order *)
 
+(* serde_parser.rs parse_field_serde_attrs: a field is skipped when the token text of one of its #[serde(..)]
+   attributes contains skip and does not contain skip_serializing (so skip, skip_deserializing and lists holding skip
+   count; skip_serializing, skip_serializing_if and a single list holding both skip_serializing and
+   skip_deserializing do not). The input record carries the resulting flag; the decoder computes it with this function. *)
+Fixpoint has_sub (p s : str) : bool :=
+  match s with [] => starts p [] | _ :: s' => starts p s || has_sub p s' end.
+Definition field_skip (serde_attrs : list str) : bool :=
+  existsb (fun a => has_sub (L "skip") a && negb (has_sub (L "skip_serializing") a)) serde_attrs.
+
 (* type_to_string (all three variants agree on this syntax) *)
 Fixpoint rty_of (q : cty) : rty :=
   match q with
